@@ -78,9 +78,9 @@ pub fn run_scenario(out: &mut Out, sc: Scenario) {
         return;
     }
     let cfg_str = format!(
-        "seed={},batch={},fault={},stats={},log={},sentinel={},tag={}",
+        "seed={},batch={},fault={},stats={},log={},sentinel={},status={},tag={}",
         hex(&sc.cfg.seed), sc.cfg.batch, sc.cfg.fault, if sc.cfg.per_client { "per" } else { "agg" },
-        sc.cfg.level, if sc.sentinel { 1 } else { 0 }, sc.tag
+        sc.cfg.level, if sc.sentinel { 1 } else { 0 }, sc.cfg.status.map(|x| x.to_string()).unwrap_or("default".into()), sc.tag
     );
     let bursts_str = sc
         .bursts
@@ -148,6 +148,19 @@ pub fn run_scenario(out: &mut Out, sc: Scenario) {
             st.total_responses_sent(), st.num_rfc_responses_sent(), st.num_classic_responses_sent(),
             st.total_bytes_sent(), st.total_unique_clients()
         );
+        // snapshots the worker published through the statistics queue (status timer)
+        let mut q = [0u64; 11];
+        let mut snaps = 0u64;
+        while let Some(snap) = rig.queue.pop() {
+            snaps += 1;
+            for c in snap {
+                q[0] += (c.rfc_requests + c.classic_requests) as u64; q[1] += c.rfc_requests as u64; q[2] += c.classic_requests as u64;
+                q[3] += c.invalid_requests as u64; q[4] += c.health_checks as u64; q[5] += c.failed_send_attempts as u64;
+                q[6] += c.retried_send_attempts as u64; q[7] += (c.rfc_responses_sent + c.classic_responses_sent) as u64;
+                q[8] += c.rfc_responses_sent as u64; q[9] += c.classic_responses_sent as u64; q[10] += c.bytes_sent as u64;
+            }
+        }
+        let qstats = format!("{},{},{},{},{},{},{},{},{},{},{},{}", q[0], q[1], q[2], q[3], q[4], q[5], q[6], q[7], q[8], q[9], q[10], snaps);
         let records = take_records();
         capture(false);
         // C20 monitor: seed / scalar / SHA-512 halves in raw, hex, base64 forms, every offset
@@ -170,8 +183,8 @@ pub fn run_scenario(out: &mut Out, sc: Scenario) {
         };
         let rb = if reply_burst.is_empty() { "-".to_string() } else { reply_burst.iter().map(|b| b.to_string()).collect::<Vec<_>>().join(",") };
         format!(
-            "panic={} t0={}.{:09} t1={}.{:09} pub={} stats={} leak={} logs={} brackets={} rburst={} replies={}",
-            if rig.panicked { 1 } else { 0 }, t0.0, t0.1, t1.0, t1.1, pubkey, stats, leak, records.len(), brackets.join(","), rb, rep
+            "panic={} t0={}.{:09} t1={}.{:09} pub={} stats={} qstats={} leak={} logs={} brackets={} rburst={} replies={}",
+            if rig.panicked { 1 } else { 0 }, t0.0, t0.1, t1.0, t1.1, pubkey, stats, qstats, leak, records.len(), brackets.join(","), rb, rep
         )
     });
     out.case("srv", &[&cfg_str, &bursts_str], &imp);
@@ -306,7 +319,7 @@ impl<'a> Gen<'a> {
 }
 
 fn cfg_of(g: &mut Gen, batch: u8, fault: u8, level: &str) -> RigCfg {
-    RigCfg { seed: g.seed.clone(), batch, fault, per_client: g.r.chance(1, 3), level: level.to_string() }
+    RigCfg { seed: g.seed.clone(), batch, fault, per_client: g.r.chance(1, 3), level: level.to_string(), status: None }
 }
 
 fn pick_level(r: &mut Rng) -> &'static str {
@@ -358,7 +371,7 @@ fn mixed(r: &mut Rng, thorough: bool, tag: &str, fault: u8, p_invalid: u64) -> S
 fn c12_cases(out: &mut Out, r: &mut Rng, max_len: usize) {
     let symbols: [[u8; 4]; 5] = [VER13, [0, 0, 0, 0], [1, 0, 0, 0x80], [0x0b, 0, 0, 0x80], [0xff, 0xff, 0xff, 0xff]];
     let mut g = Gen::new(r);
-    let cfg = RigCfg { seed: g.seed.clone(), batch: 64, fault: 0, per_client: false, level: "off".into() };
+    let cfg = RigCfg { seed: g.seed.clone(), batch: 64, fault: 0, per_client: false, level: "off".into(), status: None };
     // lists of length 0..=max_len; 48 requests per scenario (one client each → replies attributable)
     let mut all: Vec<Vec<u8>> = vec![];
     for len in 0..=max_len {
@@ -410,7 +423,7 @@ fn c12_cases(out: &mut Out, r: &mut Rng, max_len: usize) {
 /// C07: boundary lengths, nonces of every aligned length, frame-length values, full batches
 fn c07_cases(out: &mut Out, r: &mut Rng, thorough: bool) {
     let mut g = Gen::new(r);
-    let cfg = RigCfg { seed: g.seed.clone(), batch: 64, fault: 0, per_client: false, level: "off".into() };
+    let cfg = RigCfg { seed: g.seed.clone(), batch: 64, fault: 0, per_client: false, level: "off".into(), status: None };
     let mut reqs: Vec<Vec<u8>> = vec![];
     // classic: nonce of every aligned length 0..=1400 (step 4 in thorough, 20 in quick + the interesting ones)
     let step = if thorough { 4 } else { 44 };
@@ -580,6 +593,15 @@ pub fn run(ctx: &Ctx) {
             for _ in 0..(if t { 600 } else { 80 }) {
                 run_scenario(&mut out, mixed(&mut r, t, "c17", 0, 35));
             }
+            // the status timer (status_interval 1 s -> every 100 ms) publishes per-client snapshots through the
+            // queue and clears the recorder between bursts: nothing may be lost or counted twice
+            for k in 0..(if t { 60 } else { 10 }) {
+                let mut sc = mixed(&mut r, t, "c17-timer", 0, 35);
+                sc.cfg.per_client = k % 5 != 4;
+                sc.cfg.status = Some(1);
+                sc.pauses = (0..sc.bursts.len()).map(|i| if i == 0 { 0 } else { 150 + 60 * (i as u64 % 3) }).collect();
+                run_scenario(&mut out, sc);
+            }
         }
         "c20" => {
             for i in 0..(if t { 600 } else { 60 }) {
@@ -599,7 +621,7 @@ pub fn run(ctx: &Ctx) {
 pub fn replay_one(out: &mut Out, args: &[&str]) {
     install_logger();
     // args: cfg, bursts
-    let mut cfg = RigCfg { seed: vec![0; 32], batch: 64, fault: 0, per_client: false, level: "off".into() };
+    let mut cfg = RigCfg { seed: vec![0; 32], batch: 64, fault: 0, per_client: false, level: "off".into(), status: None };
     let mut sentinel = false;
     let mut tag = String::new();
     for kv in args[0].split(',') {
@@ -610,6 +632,7 @@ pub fn replay_one(out: &mut Out, args: &[&str]) {
             "fault" => cfg.fault = v.parse().unwrap(),
             "stats" => cfg.per_client = v == "per",
             "log" => cfg.level = v.to_string(),
+            "status" => cfg.status = v.parse().ok(),
             "sentinel" => sentinel = v == "1",
             "tag" => tag = v.to_string(),
             _ => {}
